@@ -118,9 +118,11 @@ def evaluate(job, res):
 
 
 def run_batch(jobs, sim_dir=SIM_DIR, repo=REPO, workers=NCPU, stop_on_violation=True, progress=True):
+    import threading
     order = sorted(jobs, key=lambda j: -runner.predicted_cost(j))
     recs = []
     stop = False
+    cancel = threading.Event()
     t0 = time.time()
     with cf.ThreadPoolExecutor(max_workers=workers) as ex:
         pending = {}
@@ -128,7 +130,7 @@ def run_batch(jobs, sim_dir=SIM_DIR, repo=REPO, workers=NCPU, stop_on_violation=
 
         def submit_next():
             for j in it:
-                f = ex.submit(lambda j=j: evaluate(j, runner.run_job(j, sim_dir, repo)))
+                f = ex.submit(lambda j=j: evaluate(j, runner.run_job(j, sim_dir, repo, cancel=cancel)))
                 pending[f] = j
                 return True
             return False
@@ -141,13 +143,18 @@ def run_batch(jobs, sim_dir=SIM_DIR, repo=REPO, workers=NCPU, stop_on_violation=
             for f in done:
                 j = pending.pop(f)
                 rec = f.result()
+                if rec["status"] == "cancelled":
+                    continue
                 recs.append(rec)
                 done_n += 1
                 if rec["violations"] or rec["status"] in ("harness", "timeout"):
                     if progress:
                         log(f"  run {j['id']} ({j['kind']}) -> {rec['status']} {[v['class'] for v in rec['violations']]} {rec.get('why') or ''}")
-                    if stop_on_violation:
+                    if stop_on_violation and not stop:
                         stop = True
+                        # a violation (or harness error) ends the batch: the runs still in flight are abandoned
+                        cancel.set()
+                        runner.kill_all_live()
                 if progress and done_n % 32 == 0:
                     log(f"  ... {done_n}/{len(order)} runs, {time.time() - t0:.0f}s")
                 if not stop:
@@ -164,7 +171,7 @@ def _same_class(viols, target):
     return None
 
 
-def minimise(job, target, sim_dir, repo, budget=60):
+def minimise(job, target, sim_dir, repo, budget=60, wall_budget=150.0):
     """Search over (smaller argv, seed) for a run that shows the same violation class."""
     cur = dict(job)
     cur_v = target
@@ -172,21 +179,27 @@ def minimise(job, target, sim_dir, repo, budget=60):
     rng = random.Random(job["miri_seed"] ^ 0x5EED)
     derived = [rng.getrandbits(32) for _ in range(8)]
 
+    t_start = time.time()
+
     def attempt(cand):
         nonlocal used
-        seeds = [cand["miri_seed"]] + derived
-        cands = []
-        for s in seeds:
-            c = dict(cand)
-            c["miri_seed"] = s
-            cands.append(c)
-        used += len(cands)
-        recs, _ = run_batch(cands, sim_dir, repo, workers=min(NCPU, len(cands)), stop_on_violation=False, progress=False)
-        recs.sort(key=lambda r: seeds.index(r["job"]["miri_seed"]))
-        for r in recs:
-            v = _same_class(r["violations"], target)
-            if v:
-                return r["job"], v
+        # the seed that failed first (a defect that does not depend on the schedule reproduces at once),
+        # then 8 derived seeds in parallel
+        for seeds in ([cand["miri_seed"]], derived):
+            cands = []
+            for s in seeds:
+                c = dict(cand)
+                c["miri_seed"] = s
+                cands.append(c)
+            used += len(cands)
+            recs, _ = run_batch(cands, sim_dir, repo, workers=min(NCPU, len(cands)), stop_on_violation=False, progress=False)
+            recs.sort(key=lambda r: seeds.index(r["job"]["miri_seed"]))
+            for r in recs:
+                v = _same_class(r["violations"], target)
+                if v:
+                    return r["job"], v
+            if time.time() - t_start > wall_budget:
+                break
         return None
 
     def transforms(c, v):
@@ -230,10 +243,10 @@ def minimise(job, target, sim_dir, repo, budget=60):
 
     progress = True
     steps = []
-    while progress and used < budget:
+    while progress and used < budget and time.time() - t_start < wall_budget:
         progress = False
         for name, cand in transforms(cur, cur_v):
-            if used >= budget:
+            if used >= budget or time.time() - t_start > wall_budget:
                 break
             got = attempt(cand)
             if got:
@@ -319,7 +332,7 @@ def run_tier(tier, seed, sim_dir=SIM_DIR, repo=REPO, write_evidence=True, jobs=N
         for r in sorted(viol, key=lambda r: runner.predicted_cost(r["job"])):
             for v in r["violations"]:
                 by_class.setdefault(v["class"], (r, v))
-        for cls, (r, v) in list(by_class.items())[:3]:
+        for cls, (r, v) in list(by_class.items())[:2]:
             e = is_known(v, known)
             if e:
                 continue
